@@ -1036,7 +1036,15 @@ func runC02(c *Ctx) {
 			rv := rc.Vals[0]
 			if b, ok := decideBool(rv, g.CaseFacts(rc)); ok {
 				if b {
-					continue // keep scanning
+					// keep scanning: success must not have been recorded on the way,
+					// or an exhausted scan ends with the success signal set
+					for _, sp := range succ {
+						if sp.cond == nil && g.CaseReachedFrom(sp.n, rc) {
+							bad = "the visitor records success and then goes on scanning: when no later region has a frame the allocation reports success without a frame"
+							where = append(where, g.posOf(sp.n))
+						}
+					}
+					continue
 				}
 				nstop++
 				if !g.CaseMustPassBefore(rc, isSuccStore) {
